@@ -240,6 +240,17 @@ def run(ctx: Ctx) -> None:
     # ---- V6 every slot parseable in every position --------------------------------------------
     ctx.rule("V6", "for every (type, keyword, value alternative) the canonical token-kind rendering is a sentence of the LALR automaton as first, middle and last item of its block (contextual word lexing + evaluated retagging)", 600)
     filler = [("W", "NAME"), ("K", "DOUBLE_QUOTED_STRING")]
+    # thorough: the neighbours of the keyword vary too - a bare-word value, a bare word spelled like a
+    # keyword the token loop inspects, a number, a nested key/value block
+    fillers = [filler]
+    if ctx.tier == "thorough":
+        fillers += [
+            [("W", "NAME"), ("W", "SOMEWORD")],
+            [("W", "NAME"), ("W", "SYMBOL")],
+            [("W", "NAME"), ("W", "NAME")],
+            [("W", "NAME"), ("K", "SIGNED_INT")],
+            [("W", "METADATA"), ("K", "DOUBLE_QUOTED_STRING"), ("K", "DOUBLE_QUOTED_STRING"), ("W", "END")],
+        ]
     n_seq = 0
     for t in S.types():
         if t not in gtypes:
@@ -282,10 +293,11 @@ def run(ctx: Ctx) -> None:
                         else:
                             variants.append((tag, [("W", k.upper())] + seq))
                 for tag, item in variants:
-                    for pos, items in (("first", opener + item + filler), ("middle", opener + filler + item + filler), ("last", opener + filler + item)):
-                        n_seq += 1
-                        okk, why, kinds = accepts(items + closer)
-                        ctx.check(okk, "V6", f"{t}.{k} | {tag} | {pos}", loc, "accepted", f"{' '.join(x for _, x in items)} END is rejected: {why}", nontrivial=True)
+                    for fi, filler in enumerate(fillers):
+                        for pos, items in (("first", opener + item + filler), ("middle", opener + filler + item + filler), ("last", opener + filler + item)):
+                            n_seq += 1
+                            okk, why, kinds = accepts(items + closer)
+                            ctx.check(okk, "V6", f"{t}.{k} | {tag} | {pos}", loc, "accepted" + (f" (neighbour variant {fi})" if fi else ""), f"{' '.join(x for _, x in items)} END is rejected: {why}", nontrivial=True)
     ctx.units["lalr_sentences_checked"] = n_seq
 
     # ---- G1 -------------------------------------------------------------------------------------
